@@ -253,16 +253,24 @@ type vDB struct {
 	done  func()
 }
 
-func vOpenDB() *vDB {
+func vOpenDB() *vDB { return vOpenDBPolicy(common.WaitCompact) }
+
+func vOpenDBPolicy(policy common.ExpirationPolicy) *vDB {
 	if vsym.Symbolic() {
 		e := &vEngine{}
 		cfg := &RockRedisDBConfig{} // NewRockRedisDBConfig sizes caches from the machine's memory; not needed for the model
-		cfg.ExpirationPolicy = common.WaitCompact
-		cfg.DataVersion = common.ValueHeaderV1
+		cfg.ExpirationPolicy = policy
+		if policy == common.WaitCompact {
+			cfg.DataVersion = common.ValueHeaderV1
+		}
 		cfg.EnableTableCounter = true
 		db := &RockDB{cfg: cfg, rockEng: e, wb: e.DefaultWriteBatch(), indexMgr: NewIndexMgr(),
 			topLargeCollKeys: metric.NewCollSizeHeap(metric.DefaultHeapCapacity), engOpened: 1}
-		db.expiration = newCompactExpiration(db)
+		if policy == common.WaitCompact {
+			db.expiration = newCompactExpiration(db)
+		} else {
+			db.expiration = newLocalExpiration(db)
+		}
 		return &vDB{db: db, model: e, done: func() {}}
 	}
 	dir, err := ioutil.TempDir("", "verif-rockredis-")
@@ -272,8 +280,10 @@ func vOpenDB() *vDB {
 	cfg := NewRockRedisDBConfig()
 	cfg.DataDir = dir
 	cfg.EngineType = "pebble"
-	cfg.ExpirationPolicy = common.WaitCompact
-	cfg.DataVersion = common.ValueHeaderV1
+	cfg.ExpirationPolicy = policy
+	if policy == common.WaitCompact {
+		cfg.DataVersion = common.ValueHeaderV1
+	}
 	cfg.EnableTableCounter = true
 	db, err := OpenRockDB(cfg)
 	if err != nil {
